@@ -284,6 +284,9 @@ func (e *env) ctxNameOf(real string) string {
 		return n
 	}
 	n := fmt.Sprintf("c%d", len(e.ctxName)+1)
+	if os.Getenv("VERIF_DEBUG") != "" {
+		fmt.Fprintln(os.Stderr, "real   ", n, real)
+	}
 	e.ctxName[real] = n
 	e.ctxReal[n] = real
 	return n
@@ -898,6 +901,9 @@ func (e *env) predict(ev chain.M, tx chain.Tx, seqs map[string]uint64, created *
 		binary.BigEndian.PutUint64(idx, uint64(*created))
 		real := strings.ToUpper(hexSha(bz) + hex.EncodeToString(idx))
 		e.predicted[fmt.Sprintf("c%d", len(e.ctxName)+1+*created)] = real
+		if os.Getenv("VERIF_DEBUG") != "" {
+			fmt.Fprintln(os.Stderr, "predict", fmt.Sprintf("c%d", len(e.ctxName)+1+*created), real)
+		}
 		*created++
 	}
 }
